@@ -79,6 +79,16 @@ fn solo(v: &Value) -> Result<CaseReport, String> {
     run_solo(v, report)
 }
 
+fn big_library(_ctx: &Ctx, ev: &mut Value) -> Option<Violation> {
+    match crate::props::scenarios::huge_library_file() {
+        Ok(n) => {
+            ev["coverage"]["huge_library_file_steps"] = serde_json::json!(n);
+            None
+        }
+        Err(v) => Some(v),
+    }
+}
+
 pub fn def() -> PropDef {
     PropDef {
         id: "C02",
@@ -90,7 +100,7 @@ pub fn def() -> PropDef {
         worker,
         solo,
         hang_cpu_s: 30.0,
-        extra: None,
+        extra: Some(big_library),
         confirm_known: false,
     }
 }
